@@ -328,6 +328,62 @@ def h13_redis_result(S):
             S.check("no-ttl-means-no-expiry", b.ttl is None and out["later"] is not None)
 
 
+def h13_overwrite_then_read(S):
+    """A retry overwrites the result bucket; the bucket read later is the latest attempt's for as long as ITS time-to-live lasts."""
+    from repid import Job, Router, Worker
+    from repid.converter import BasicConverter
+
+    ttl_s = 5
+    retry_after = S.real("retry_delay_s", Fraction(1, 2), 3)
+    read_after = S.real("read_after_the_first_store_s", Fraction(1, 10), 9)
+    out = {}
+    stored = []
+
+    async def main(loop):
+        w = World(results=True)
+        await w.open(record=False)
+        orig = w.rb.store_bucket
+
+        async def store(id_, payload):
+            stored.append(loop.time())
+            return await orig(id_, payload)
+
+        w.rb.store_bucket = store
+        r = Router()
+        runs = []
+
+        @r.actor(converter=BasicConverter, retry_policy=lambda retry_number=1: vtime.VTimedelta(seconds=retry_after))
+        async def job():
+            runs.append(1)
+            if len(runs) == 1:
+                raise ValueError("first attempt fails")
+            return "second"
+
+        j = Job("job", id_="m1", retries=1, result_id="r1", result_ttl=real_timedelta(seconds=ttl_s), _connection=w.conn)
+        await j.enqueue()
+        worker = Worker(routers=[r], handle_signals=[], _connection=w.conn, graceful_shutdown_time=1.0, messages_limit=2)
+        await asyncio.wait_for(worker.run(), timeout=30)
+        out["after_run"] = await j.result
+        wait = stored[0] + read_after - loop.time()
+        if wait > 0:
+            await asyncio.sleep(wait)
+        out["read_at"] = loop.time()
+        out["later"] = await j.result
+
+    run_async(main)
+    S.cover("overwritten-then-read")
+    S.check("two-stores", len(stored) == 2, info=str(stored))
+    if len(stored) != 2:
+        return
+    b = out["after_run"]
+    S.check("bucket-is-the-latest-attempts", b is not None and b.success and b.data == '"second"', info=repr(b))
+    alive_until = stored[1] + ttl_s
+    if out["read_at"] < alive_until:
+        S.cover("read-inside-the-latest-ttl")
+        S.check("latest-result-kept-for-its-own-ttl", out["later"] is not None and out["later"].data == '"second"',
+                info=f"stores at {stored}, ttl {ttl_s} s, read at {out['read_at']}: Job.result returned {out['later']!r}")
+
+
 def h13_connection(S):
     """Connection validates that the results broker builds result buckets."""
     from repid import Connection, InMemoryBucketBroker, InMemoryMessageBroker
@@ -363,6 +419,10 @@ HARNESSES = [
                        "_processor.py:_Processor.set_result_bucket", "job.py:Job.result"],
             covers=["redis-result-read", "redis-result-expired", "results-disabled"],
             stubs=["fake Redis server: SET with EXAT against the virtual clock's unix time; the machine's zone is a symbolic fixed offset (tzset in the replay)"]),
+    Harness(name="H13-overwrite-then-read", scenario=h13_overwrite_then_read, workers=4,
+            bounds={"job": "retries 1, first attempt fails, result ttl 5 s", "retry delay": "any real in [0.5 s, 3 s]", "second read": "any real time in [0.1 s, 9 s] after the first store"},
+            functions=["connections/in_memory/bucket_broker.py:InMemoryBucketBroker.store_bucket", "connections/in_memory/bucket_broker.py:InMemoryBucketBroker.get_bucket", "job.py:Job.result"],
+            covers=["overwritten-then-read", "read-inside-the-latest-ttl"]),
     Harness(name="H13-connection", scenario=h13_connection, bounds={"results broker bucket class": "ArgsBucket / ResultBucket"},
             functions=["connection.py:Connection.__post_init__"], covers=["connection-validated"]),
 ]
